@@ -154,8 +154,26 @@ func symExec(toks []string) string {
 	base := symSnapshot(root)
 	fam := []*zygo.Zlisp{root}
 	var out []string
+	// `shadow` is a private copy of the real tables as they were before the current call: it
+	// is brought up to date after every call (the returned symbol is added; whenever the
+	// sizes then still differ from the real tables — something else was interned — it is
+	// copied afresh), so "existed before" costs O(1) per call instead of two map copies.
+	shadow := symSnapshot(root)
+	resync := func() {
+		a, b := zygo.VerifSymLens(root)
+		if a != len(shadow.sym) || b != len(shadow.rev) {
+			shadow = symSnapshot(root)
+		}
+	}
 	symAns := func(before symSnap, name string, num int) string {
-		return fmt.Sprintf("%d:%s:%s", num, symCodes(name), before.existed(name, num))
+		r := fmt.Sprintf("%d:%s:%s", num, symCodes(name), before.existed(name, num))
+		if _, ok := before.sym[name]; !ok {
+			before.sym[name] = num
+		}
+		if _, ok := before.rev[num]; !ok {
+			before.rev[num] = name
+		}
+		return r
 	}
 	for _, tok := range toks[3:] {
 		kind, i, args, ok := symSplitTok(tok)
@@ -175,7 +193,8 @@ func symExec(toks []string) string {
 			out = append(out, fmt.Sprintf("n%d", zygo.VerifSymCounter(d)))
 			continue
 		}
-		before := symSnapshot(env)
+		resync()
+		before := shadow
 		if !script {
 			if len(args) != 1 {
 				return "bad-op"
